@@ -65,6 +65,36 @@ def _w(w):
     return str(w) if _WSCALE[0] == 1 else repr(w / _WSCALE[0])
 
 
+_SHARED = [False]   # every `do D()` statement of a behaviour invokes ONE behaviour object, created when the invoking
+                    # behaviour starts and used each time control reaches that statement (set by to_scenic from the
+                    # case's "shared"): a sub-behaviour that was stopped or has finished must be startable again
+_SITES = []         # (site number, definition) of the behaviour being printed
+
+
+def _inv(d, name):
+    if not _SHARED[0]:
+        return f"{name(d)}()"
+    _SITES.append((len(_SITES) + 1, d))
+    return f"_s{len(_SITES)}"
+
+
+def _invoked(stmts):
+    """definitions invoked by do / do-for / do-until statements of a block (recursively)"""
+    out = []
+    for s in stmts:
+        if s[0] in ("do", "dofor", "dountil"):
+            out.append(s[1])
+        elif s[0] == "if":
+            out += _invoked(s[2]) + _invoked(s[3])
+        elif s[0] == "while":
+            out += _invoked(s[2])
+        elif s[0] == "try":
+            out += _invoked(s[1])
+            for _c, h in s[2]:
+                out += _invoked(h)
+    return out
+
+
 def _items(items, name):
     if all(w == 1 for _d, w in items) and _WSCALE[0] == 1:
         return ", ".join(f"{name(d)}()" for d, _w in items)
@@ -100,11 +130,11 @@ def _block(stmts, ind, name, ismon):
             out.append(f"{pad}while {_cond(s[1])}:")
             out += _block(s[2], ind + 1, name, ismon)
         elif k == "do":
-            out.append(f"{pad}do {name(s[1])}()")
+            out.append(f"{pad}do {_inv(s[1], name)}")
         elif k == "dofor":
-            out.append(f"{pad}do {name(s[1])}() for {s[2]} {s[3]}")
+            out.append(f"{pad}do {_inv(s[1], name)} for {s[2]} {s[3]}")
         elif k == "dountil":
-            out.append(f"{pad}do {name(s[1])}() until {_cond(s[2])}")
+            out.append(f"{pad}do {_inv(s[1], name)} until {_cond(s[2])}")
         elif k == "waitfor":
             out.append(f"{pad}wait for {s[1]} {s[2]}")
         elif k == "waituntil":
@@ -247,6 +277,7 @@ def _setup_lines(sd, name):
 def to_scenic(case):
     normalize(case)
     _WSCALE[0] = case.get("wscale", 1)
+    _SHARED[0] = bool(case.get("shared"))
     sdefs = case["sdefs"]
     monset = set(m for sd in sdefs for m in sd["monitors"])
     name = lambda d: ("M" if d in monset else "D") + str(d)
@@ -259,7 +290,9 @@ def to_scenic(case):
             lines.append(f"    precondition: {_cond(c)}")
         for c in df["inv"]:
             lines.append(f"    invariant: {_cond(c)}")
-        lines += _block(df["body"], 1, name, d in monset)
+        del _SITES[:]
+        body_lines = _block(df["body"], 1, name, d in monset)
+        lines += [f"    _s{n} = {name(sub)}()" for n, sub in _SITES] + body_lines
     objs = []
     for i, d in enumerate(case["agents"]):
         var = "ego" if i == 0 else f"obj{i}"
